@@ -84,6 +84,14 @@ CHECKS = {
             "The original query's own result set is the reference (absolute correctness is C01). simplify() is not compared for FuzzyTerm nodes whose "
             "Levenshtein and Damerau readings differ on the corpus (C19 finding).",
             "DESIGN.md section 2 C15"),
+    "C19": ("exploration",
+            "exhaustive enumeration over small alphabets (sharded) + property-based testing (Hypothesis) against textbook edit-distance references",
+            "small: every query word up to length 5 over {a,b} / 4 over {a,b,c} x d in 0..3 x prefix 0..4 against full and partial lexicons, on a one-segment (automaton) and a "
+            "three-segment (brute force) index; terms_within must contain everything within Levenshtein distance and nothing beyond Damerau-Levenshtein distance, and both layouts "
+            "must agree. sampled: generated lexicons over larger alphabets (multi-byte, non-BMP) with frequencies: terms_within, FuzzyTerm hits, and suggest() (existing terms within "
+            "distance, no duplicates, limit, nothing closer left out, order by distance then frequency). Two recorded findings pinned by the repository's tests are classified narrowly.",
+            "exhaustive: true refers to the stated small alphabets/lengths. Where restricted and unrestricted Damerau-Levenshtein disagree either answer is accepted.",
+            "DESIGN.md section 2 C19"),
     "C20": ("exploration",
             "property-based testing (Hypothesis): round-trips and model-based operation programs vs dict/list/set/bisect oracles",
             "Generated key/value multisets, ordered key sets with probes, integer lists, external-sort inputs, "
